@@ -40,6 +40,12 @@ LEVEL = {
  "C14": ("exploration", "bounded-exhaustive input enumeration on the implementation (vectors tag, stand-in engine) vs. reference top-k oracle",
          "every small vector batch x metric x exclusion bitmap x query x k x eligible subset x requiresFiltering, in memory and re-opened, is searched through the real zapx code and the result set checked against an exact top-k oracle that tolerates ties; a 1200-vector lattice exercises the clustered (IVF) paths and both selector kinds with a soundness oracle; exhaustive within the bounds",
          "trusted base: fidelity of the fakefaiss stand-in to the go-faiss contract (DESIGN 3.4); real FAISS not available offline", "4 C14"),
+ "C15": ("model_checking", "explicit-state exploration of the merge state space on the implementation (states deduplicated by canonical key, successors by replay)",
+         "every merge of the bounded vector state space (6 segment shapes x every drop vector x provenance, depth <= 2/3) is executed on the real code under the vectors tag; in every reached state exact searches and the vector-count statistic of the merged segment are compared with the reference over the survivors, and the engine's live-object count must return to 0",
+         "trusted base: fidelity of the fakefaiss stand-in (DESIGN 3.4)", "4 C15"),
+ "C19": ("fault_enumeration", "exhaustive enumeration of engine-call fault points (the n-th call of every engine operation) on the real build / merge paths",
+         "for 5 build/merge scenarios the fault-free engine call log is recorded and one run is made per (operation, n): the run must return an error or a segment in which every reference vector is retrievable, must leave no file on a failed merge and must release every native index",
+         "trusted base: the fakefaiss stand-in and its fault plan (DESIGN 3.4)", "4 C19"),
  "C01": ("exploration", "bounded-exhaustive input enumeration on the implementation vs. reference model",
          "every batch of a stated finite alphabet (cell menu per document x field, N<=3; column and chunk-boundary families) x chunk modes x both build tags is built by the real code and its complete term/postings content compared with an independent reference model; exhaustive within the bounds, no sampling",
          "reference model in harness/ref; inputs only inside the alphabet; Go map order not enumerable (semantic oracle)", "4 C01"),
